@@ -346,9 +346,17 @@ async fn exec_op(st: &mut St, op: &Value, obs: &mut Vec<Value>) {
             obs.push(res_obs(&r));
         }
         "model_get" => match exec.model().get(&s(1), &s(2)) {
-            Ok(m) => obs.push(
-                json!({"k":"model","id":m.id,"ver":m.ver,"name":m.name,"size":m.size,"data":m.data}),
-            ),
+            Ok(m) => {
+                // the stored text as the engine itself reads it back
+                let parsed = Workflow::from_yml(&m.data)
+                    .ok()
+                    .and_then(|w| w.to_json().ok())
+                    .and_then(|t| serde_json::from_str::<Value>(&t).ok())
+                    .unwrap_or(Value::Null);
+                obs.push(
+                    json!({"k":"model","id":m.id,"ver":m.ver,"name":m.name,"size":m.size,"data":m.data,"parsed":parsed}),
+                )
+            }
             Err(e) => obs.push(res_obs::<()>(&Err(e))),
         },
         "start" => {
